@@ -294,8 +294,10 @@ func parseContractFile(path, pkg string) (*ContractFile, error) {
 			// also: assume after call (*sync.Mutex).Lock#k : inv  -- a monitor invariant, assumed at acquisition; the
 			// contract must re-establish it (ensures) in every function that takes the lock
 			r2t := strings.TrimSpace(r2)
-			if idx < 0 || when != "after" || !(strings.HasPrefix(r2t, "make ") || strings.HasPrefix(r2t, "call (*sync.Mutex).Lock") || strings.HasPrefix(r2t, "call (*sync.RWMutex).")) {
-				return nil, fail(fmt.Errorf("assume after make <channel> : expr   |   assume after call (*sync.Mutex).Lock#k : expr"))
+			// also: assume after call f#k : expr  -- an explicit assumption about the outcome of one call (listed as such
+			// in the evidence); used where the code itself relies on it (e.g. ignores the error of that call)
+			if idx < 0 || when != "after" || !(strings.HasPrefix(r2t, "make ") || strings.HasPrefix(r2t, "call ")) {
+				return nil, fail(fmt.Errorf("assume after make <channel> : expr   |   assume after call f#k : expr"))
 			}
 			e, err := parseExprSrc(strings.TrimSpace(r2[idx+1:]))
 			if err != nil {
